@@ -362,3 +362,5 @@ case("C05", "C05-raw-flag-inverted", "VIOLATION", [(D, "\t\t\t\tif raw_outputs =
 case("C04", "C04-maxpool-drops-dilation", "VIOLATION", [(D, "\t\t_, indices = pool_func(module.input, module.kernel_size, module.stride, \n\t\t\tmodule.padding, module.dilation, module.ceil_mode, True)", "\t\t_, indices = pool_func(module.input, module.kernel_size, module.stride,\n\t\t\tmodule.padding, ceil_mode=module.ceil_mode, return_indices=True)")], "MAXPOOL")
 case("C04", "C04-maxpool-keyword-spelling", "HOLDS", [(D, "\t\t_, indices = pool_func(module.input, module.kernel_size, module.stride, \n\t\t\tmodule.padding, module.dilation, module.ceil_mode, True)", "\t\t_, indices = pool_func(module.input, module.kernel_size, module.stride,\n\t\t\tmodule.padding, dilation=module.dilation, ceil_mode=module.ceil_mode, return_indices=True)")])
 case("C06", "args-skip-gather-when-same-length", "VIOLATION", [(D, "tuple([a[Xi].to(device) ", "tuple([(a if len(a) == len(Xi) else a[Xi]).to(device) ")], "R-ARGWIN")
+for _p in ("C04", "C05"):
+    case(_p, _p + "-ratio-clamped", "VIOLATION", [(D, "\tdelta = delta_out / delta_in\n\tidxs = torch.abs(delta_in) < 1e-6\n\n\treturn (torch.where(idxs, grad_input[0], grad_output[0] * delta),)", "\tdelta = torch.clamp(delta_out / delta_in, 0, 1)\n\tidxs = torch.abs(delta_in) < 1e-6\n\n\treturn (torch.where(idxs, grad_input[0], grad_output[0] * delta),)")], "R-TERM", "deep_lift_shap._nonlinear")
